@@ -10,6 +10,8 @@ hex, "-" = empty string; integers are decimal):
   get <loc> <tok> <signing 0|1> <ttlNs> <key> <absent|p<bodyhex>> <nowNs>
         -> 400 | 401 | 403 | 404 | 200 <bodyhex>   (remote proxy with no RemoteClusters
            configured: 401 without a token, else 400)
+  getnow <loc> <tok> <ttlNs> <key> <absent|p<bodyhex>> <nowNs>
+        sign with expiry = nowNs/1e9 (the second that has begun), GET with signing on -> status as for get
   put <body> <tok> <tok2> <signing 0|1> <ttlNs> <key> <nowNs>
         -> 200 <signed 0|1> <status of GET with tok> <status of GET with tok2>
 
@@ -88,6 +90,21 @@ def step (line : String) : String :=
       | some body, some now => getStatus ⟨signing, ttl, key⟩ loc tok now body
       | _, _ => "bad-op"
     | _, _, _, _, _ => "bad-op"
+  | ["getnow", loc, tok, ttl, key, present, now] =>
+    let body : Option (Option Str) :=
+      if present == "absent" then some none
+      else if present.startsWith "p" then
+        (if present.length == 1 then some [] else decHex (present.drop 1).toString).map some
+      else none
+    match decHex loc, decHex tok, ttl.toInt?, decHex key with
+    | some loc, some tok, some ttl, some key =>
+      match body, now.toInt? with
+      | some body, some now =>
+        -- keepstore's SignLocator wrapper with expiry = the second that has begun, then GET
+        let signed := signLocator hmacSha1 loc tok (now / 1000000000) ttl key
+        getStatus ⟨true, ttl, key⟩ signed tok now body
+      | _, _ => "bad-op"
+    | _, _, _, _ => "bad-op"
   | ["put", body, tok, tok2, signing, ttl, key, now] =>
     match decHex body, decHex tok, decHex tok2, parseBool signing, ttl.toInt? with
     | some body, some tok, some tok2, some signing, some ttl =>
